@@ -163,7 +163,9 @@ Section WalkFrom.
     /\ (forall d v r, In d (defs o) -> live (q ++ s0) v -> d <> v -> ty a d = Some r -> ty a v = Some r ->
           Pset t0 r \/ (zero_rule c = true /\ r = 0))
     /\ (forall x y, In (x, y) (s_io o) -> ty a x = ty a y)
-    /\ (forall v r, live (q ++ s0) v -> ty a v = Some r -> Pset t0 r -> FR v r).
+    /\ (forall v r, live (q ++ s0) v -> ty a v = Some r -> Pset t0 r -> FR v r)
+    /\ (forall d r, In d (defs o) -> ty a d = Some r -> Pset t0 r -> FR d r)
+    /\ (forall v, live (q ++ s0) v -> exists r, ty a v = Some r).
   Proof.
     intros o q s0 p a0 a Hl HI0 Hall0 Hrun. simpl in Hl.
     rewrite allocate_sops_cons in Hrun.
@@ -171,11 +173,12 @@ Section WalkFrom.
     assert (Hl1 : l = (p ++ [o]) ++ q ++ s0). { rewrite <- app_assoc. exact Hl. }
     destruct (walk_from q s0 (p ++ [o]) a0 a1 Hl1 HI0 Hall0 E1) as [HI1 [Hall1 Hm1]].
     pose proof (facts_gen c FR l p o (q ++ s0) Hwf Hio Hnz Htie Hl) as F.
-    destruct (op_step c t0 FR FR_pre o (q ++ s0) a1 a F HI1 Hall1 Hrun) as [_ [_ [Hm2 [Hd [Hh [Ht _]]]]]].
-    split; [exact Hd|]. split; [exact Hh|]. split; [exact Ht|].
-    intros v r Hv Hr HP. destruct HI1 as [_ [_ [_ [_ H5]]]].
-    destruct (Hall1 v Hv) as [r1 Hr1]. pose proof (Hm2 v r1 Hr1) as E. rewrite Hr in E. inversion E; subst r1.
-    exact (H5 v r Hv Hr1 HP).
+    destruct (op_step c t0 FR FR_pre o (q ++ s0) a1 a F HI1 Hall1 Hrun) as [_ [_ [Hm2 [Hd [Hh [Ht Hdf]]]]]].
+    split; [exact Hd|]. split; [exact Hh|]. split; [exact Ht|]. split; [|split; [exact Hdf|]].
+    - intros v r Hv Hr HP. destruct HI1 as [_ [_ [_ [_ H5]]]].
+      destruct (Hall1 v Hv) as [r1 Hr1]. pose proof (Hm2 v r1 Hr1) as E. rewrite Hr in E. inversion E; subst r1.
+      exact (H5 v r Hv Hr1 HP).
+    - intros v Hv. destruct (Hall1 v Hv) as [r1 Hr1]. exists r1. apply Hm2. exact Hr1.
   Qed.
 End WalkFrom.
 
